@@ -117,6 +117,7 @@ func c01Program(cs *caseSet, nVal int) {
 		if sd == nil {
 			continue
 		}
+		c01Big(cs, vg, codec, tt.T, sd)
 		// Default_<T>
 		want := "none"
 		if sd.HasDefaults() {
@@ -171,6 +172,63 @@ func c01Program(cs *caseSet, nVal int) {
 		cs.add(opCase{Kind: "C01 constant", Impl: "const " + ci.Name + " " + ci.T.Text(), Want: "ok " + ci.G.Text(),
 			Why: "the generated constant is not the IDL literal cast to the declared type", nontrivial: true})
 	}
+}
+
+// bigLeft is how many more over-threshold payload cases this run adds: a
+// string/binary longer than 1 MiB takes a separate read path in the codec, and
+// what follows it in the encoding must still be read correctly.
+var bigLeft = 2
+
+func c01Big(cs *caseSet, vg *valgen.Gen, codec *refcodec.Codec, t *gtext.T, sd *gtext.StructDef) {
+	if bigLeft == 0 || sd.Arity() != 0 || len(sd.Fields) < 2 {
+		return
+	}
+	at := -1
+	for i, f := range sd.Fields {
+		if k := f.T.Root().K; (k == gtext.KString || k == gtext.KBinary) && i+1 < len(sd.Fields) {
+			at = i
+			break
+		}
+	}
+	if at < 0 {
+		return
+	}
+	r := cs.c.r
+	vg.MaxDepth, vg.MaxLen = 2, 2
+	g := vg.Value(t)
+	if g.IsNil() || len(g.Items) != len(sd.Fields) {
+		return
+	}
+	big := make([]byte, 1<<20+1+r.Intn(6000))
+	for i := range big {
+		big[i] = byte('a' + i%23)
+	}
+	if sd.Fields[at].T.Root().K == gtext.KString {
+		g.Items[at] = gtext.Str(big)
+	} else {
+		g.Items[at] = gtext.Bin(big)
+	}
+	refW, err := codec.ToWire(t, g)
+	if err != nil {
+		return
+	}
+	bigLeft--
+	cs.c.rep.Hist("value", "payload over 1 MiB")
+	tText, gt := t.Text(), g.Text()
+	wantW := "ok " + refcodec.Canon(refW).Text()
+	cs.add(opCase{Kind: "C01 ToWire", Impl: "towire " + tText + " " + gt, Model: "towire " + tText + " " + gt, Canon: "w", Want: wantW,
+		Why: "the wire value produced by ToWire is not the reference encoding of the value (payload over 1 MiB)", nontrivial: true})
+	cs.add(opCase{Kind: "C01 Encode", Impl: "encode " + tText + " " + gt, Canon: fmt.Sprintf("hex:%d", t.Code()), Want: wantW,
+		Why: "the bytes written by Encode do not decode, with the reference decoder, to the logical value (payload over 1 MiB)", nontrivial: true})
+	expG, err := codec.FromWire(t, refW)
+	if err != nil {
+		fatal("reference FromWire failed on a reference encoding of %s: %v", tText, err)
+	}
+	cs.add(opCase{Kind: "C01 FromWire", Impl: "fromwire " + tText + " " + refW.Text(), Want: "ok " + expG.Text(),
+		Why: "FromWire of a reference encoding is not the value (payload over 1 MiB)", nontrivial: true})
+	enc := refW.Encode(nil)
+	cs.addDecodes("C01 Decode", tText, enc, fmt.Sprintf("ok %d %s", len(enc), expG.Text()),
+		"Decode of a reference encoding holding a payload over 1 MiB, followed by further fields, is not the value", true)
 }
 
 func shorten(s string, n int) string {
